@@ -351,7 +351,7 @@ fn run_c32(tier: Tier, replay: Option<&str>) -> i32 {
         }
     }
     sizes.push(4094);
-    let depth = tier.pick(4, 6);
+    let depth = tier.pick(4, 7);
     let states_total = std::sync::atomic::AtomicU64::new(0);
     let trans_total = std::sync::atomic::AtomicU64::new(0);
     sizes.par_iter().for_each(|max_ti| {
